@@ -529,6 +529,11 @@ class XsdAttributeGroup(
                     assert isinstance(base_attr, XsdAnyAttribute), "invalid base attribute"
 
                     if self.derivation == 'extension':
+                        if attr.parent is not self:
+                            # The wildcard of a referenced group is shared with the
+                            # other users of the group: extend a copy of it
+                            attributes[None] = attr = copy(attr)
+                            attr.parent = self
                         try:
                             attr.union(base_attr)
                         except ValueError as err:
